@@ -2,6 +2,7 @@ package props
 
 import (
 	"fmt"
+	"io"
 
 	"verifsim/core"
 	"verifsim/gen"
@@ -77,7 +78,17 @@ func c05Run(c *Ctx) {
 		c.PlanEntry = "concurrent"
 		return
 	}
+	// the logger is configured before the tasks start (configuration is not concurrent with
+	// decodes, but decodes under a non-default level are): level-guarded code paths - marshalers,
+	// name lookups, caches behind them - then run concurrently too. The sink is io.Discard: it
+	// is stateless, so the tasks share nothing the harness owns.
 	harness.LogDefault()
+	if lv := c.L("cfg:log").Intn(8); lv >= 4 {
+		level := 1 + lv%4 // trace, debug, info, warn
+		harness.LogConfigure(io.Discard, level)
+		c.Inc("cfg.level:" + harness.LogLevelNames[level])
+		defer harness.LogDefault()
+	}
 	// every run starts from empty pools, so that a run is a function of (seed, run index) and of
 	// nothing an earlier run in the same worker left behind
 	harness.GCPoint()
@@ -223,6 +234,11 @@ func c05Cold(c *Ctx) {
 		sw[i], tg[i] = 1, uint16(sl.Intn(nt))
 	}
 	harness.LogDefault()
+	if c.Run%3 == 2 {
+		// a third of the cold starts run under the info level (first use of level-guarded code)
+		harness.LogConfigure(io.Discard, 3)
+		defer harness.LogDefault()
+	}
 	sched := world.NewSched(nt, sw, tg)
 	for i, t := range tasks {
 		id := i
